@@ -126,8 +126,12 @@ func c15RunF(mainStates, personalStates []int, maxAttemptsHi int, symbolicDelays
 			}
 		}
 		verifReach("real")
-	} else if mainHealthyAt == 0 {
+	} else if mainHealthyAt == 0 || ps == c15Dir || ps == c15Garbage || ps == c15Denied {
+		// main file unusable, or a (persistently) broken notebook beside a good main file
 		verifAssert(len(db.Commands) > 0, "C15: the built-in fallback is not empty")
+		for i := range db.Commands {
+			verifAssert(len(mainEntries) == 0 || db.Commands[i].Command != mainEntries[0].Command, "C15: the fallback is the built-in set (a broken notebook is not taken for an absent one)")
+		}
 		for i := range db.Commands {
 			verifAssert(db.Commands[i].Command != c15Entries("b", 1)[0].Command, "C15: the fallback is the built-in set (not some other file's content)")
 		}
@@ -144,6 +148,10 @@ func c15RunF(mainStates, personalStates []int, maxAttemptsHi int, symbolicDelays
 		}
 		verifAssert(elapsed >= time.Duration(attempts-1)*lo, "C15: waits never decrease (total wait is at least attempts-1 times the first wait)")
 		verifAssert(elapsed <= time.Duration(attempts-1)*cfg.MaxDelay, "C15: no wait exceeds the configured maximum (total wait bounded)")
+	}
+	// a permission-denied notebook beside a good main file is not retried either
+	if (ms == c15OK || ms == c15Blank) && ps == c15Denied {
+		verifAssert(elapsed == 0, "C15: a missing or permission-denied database file is tried once (no retry wait; notebook)")
 	}
 	// no futile retries: a missing or permission-denied file is tried once => no waiting at all
 	if ms == c15Missing || ms == c15Denied {
@@ -169,7 +177,7 @@ func c15RunF(mainStates, personalStates []int, maxAttemptsHi int, symbolicDelays
 }
 
 func VerifHarness_C15_Ladder() {
-	c15Run([]int{c15OK, c15Missing, c15Dir, c15Garbage, c15Denied, c15IOErr, c15Blank}, []int{c15OK, c15Missing, c15Garbage, c15Dir, c15Blank}, 3, false)
+	c15Run([]int{c15OK, c15Missing, c15Dir, c15Garbage, c15Denied, c15IOErr, c15Blank}, []int{c15OK, c15Missing, c15Garbage, c15Dir, c15Blank, c15Denied}, 3, false)
 }
 func VerifHarness_C15_LadderDelays() {
 	c15Run([]int{c15Garbage, c15IOErr, c15Dir}, []int{c15Missing}, 3, true)
